@@ -212,9 +212,9 @@ func Verif_C02_open_structured() {
 func Verif_C02_open_small() {
 	n := 18
 	if verifTier() >= 1 {
-		n = 22
+		n = 20
 	}
-	verifNote("OPEN decode+validate: every body of length <= 18 (quick) / 22 (thorough)")
+	verifNote("OPEN decode+validate: every body of length <= 18 (quick) / 20 (thorough)")
 	for _, w := range c02Wanted {
 		verifWant("sm-" + w)
 	}
